@@ -304,7 +304,20 @@ impl Gen {
   /// An "identity-like" leaf: its text is the content of a pool file and
   /// its segments map positions to themselves.
   fn identity_sms(&mut self) -> Value {
-    let fi = self.rng.gen_range(0..3);
+    // only files that carry content in this program (a shared name has the
+    // same content everywhere)
+    let fi = match (0..3).filter(|i| self.with_content[*i]).nth(0) {
+      Some(_) => loop {
+        let i = self.rng.gen_range(0..3);
+        if self.with_content[i] {
+          break i;
+        }
+      },
+      None => {
+        self.with_content[0] = true;
+        0
+      }
+    };
     let text = CONTENTS[fi];
     let mut segs: Vec<Seg> = vec![];
     for (li, line) in Self::lines_of(text).iter().enumerate() {
@@ -322,12 +335,7 @@ impl Gen {
         segs.push(((li + 1) as i64, c as i64, 0, (li + 1) as i64, c as i64, ni));
       }
     }
-    let was = self.with_content[fi];
-    if self.rng.gen_bool(0.8) {
-      self.with_content[fi] = true;
-    }
     let map = self.map_json(&segs, 1, 2, fi);
-    self.with_content[fi] = was || self.with_content[fi];
     json!({"k": "sms", "b": name_json(text), "name": name_json("gen.js"),
            "map": map, "inner": [], "osrc": [], "remove": false})
   }
@@ -489,7 +497,7 @@ pub fn generate(kind: &str, seed: u64, count: usize, out: &str) {
   let cfg = match kind {
     "stream_any" | "views" => Cfg::any(),
     "replace_hist" => Cfg { depth: 1, wild_maps: false, ..Cfg::any() },
-    "laws" | "concat_children" => Cfg { depth: 2, ..Cfg::ascii() },
+    "laws" | "concat_children" | "replace_inner" => Cfg { depth: 2, ..Cfg::ascii() },
     _ => Cfg::ascii(),
   };
   let mut g = Gen::new(seed, cfg);
@@ -555,6 +563,27 @@ pub fn generate(kind: &str, seed: u64, count: usize, out: &str) {
         steps.push(json!({"op": "build", "dst": 1, "tree": rhs}));
         steps.extend(obs_all(1));
         steps.push(json!({"op": "law", "law": "same", "a": 0, "b": 1}));
+      }
+      "replace_inner" => {
+        let inner = steps[0]["tree"].clone();
+        let text = match std::panic::catch_unwind(|| Gen::text_of(&inner)) {
+          Ok(t) => t,
+          Err(_) => continue,
+        };
+        let n = g.rng.gen_range(1..=4);
+        let repls: Vec<Value> = (0..n).map(|_| g.replacement(&text)).collect();
+        steps = vec![
+          json!({"op": "build", "dst": 1, "tree": inner}),
+          stream(1, true, false),
+          stream(1, true, false),
+          obs("source", 1),
+          json!({"op": "build", "dst": 0,
+                 "tree": {"k": "replace", "inner": {"k": "reg", "r": 1}, "repls": repls}}),
+          obs("source", 0),
+          stream(0, true, false),
+          map(0, true),
+          json!({"op": "law", "law": "replace_inner", "r": 0, "inner": 1}),
+        ];
       }
       "concat_children" => {
         let n = g.rng.gen_range(2..=4u64);
